@@ -3,11 +3,11 @@
     written exactly once.  Element level, for every grammar: a successful run of the generic parser that reports nothing has
     consumed exactly the tokens that the writer prints for the value it returns, in the same order
     (C02_load_then_write_keeps_every_token and its text-level form); children are written in file order. *)
-From Coq Require Import Ascii String List Bool NArith ZArith.
+From Coq Require Import Ascii String List Bool NArith ZArith Sorting.Sorted.
 From A2L Require Import Base.StableSort Text.Escape Text.IntText Lex.Tokenizer Gram.Spec A2ml.Types Gram.PState Gram.Parser Gram.Writer
      Gram.TokWriter Gram.WriterTable Gen.SpecShipped Gen.WriterShipped
      Proofs.EscapeProofs Proofs.IntTextProofs Proofs.GrammarObligations Proofs.CursorProofs Proofs.RoundTripProofs
-     Proofs.RoundTripOrderProofs Proofs.ParseOrderProofs Proofs.ParseTraceProofs.
+     Proofs.RoundTripOrderProofs Proofs.LineOffsetProofs Proofs.ParseOrderProofs Proofs.ParseTraceProofs Proofs.LoadWriteDocProofs Proofs.LexUnitsProofs Proofs.LinePreservationProofs.
 Import ListNotations.
 
 (* decimal literals: whatever get_integer accepts is in the range of the field type - no silent change *)
@@ -48,12 +48,15 @@ Proof. repeat split; vm_compute; reflexivity. Qed.
     canonical text of the value it was read as.  Conditions: one file, no comment tokens, non-strict mode, the run reports
     nothing, the value holds no A2ML / IF_DATA element and position restrictions reorder nothing ([good]). *)
 Theorem C02_load_then_write_keeps_every_token : forall S posrs ftab ifuel, spec_ok S = true ->
-  forall f td c off s v s', c_fileid c = O -> Inv s -> ps_ftab s = ftab ->
+  forall f td c off s v s', c_fileid c = O -> Inv s -> first_ok s -> ps_ftab s = ftab ->
     lookup_ty S (t_name td) = Some td -> t_special td = None ->
     parse_ty f S ifuel td c off s = (ROk v, s') -> ps_log s' = ps_log s -> good S posrs f td v ->
-    exists ts, adv ts s s' /\ traced ftab ts (wtoks S posrs ftab f v ++ closing (is_blockb td) (c_element c)) /\
-               node_at td v s s'.
-Proof. exact parse_then_write. Qed.
+    exists ts, adv ts s s' /\ traced ftab ts (wtoks S posrs ftab f v ++ closing (is_blockb td) (c_element c)).
+Proof.
+  intros S posrs ftab ifuel Hs f td c off s v s' H1 H2 H3 H4 H5 H6 H7 H8 H9.
+  destruct (parse_then_write S posrs ftab ifuel Hs f td c off s v s' H1 H2 H3 H4 H5 H6 H7 H8 H9) as (ts & A & T & _).
+  exists ts. split; assumption.
+Qed.
 Print Assumptions C02_load_then_write_keeps_every_token.
 
 (* the same from a text: tokenize, parse an element body; the tokens consumed are the tokens written *)
@@ -67,6 +70,22 @@ Theorem C02_text_element_tokens_are_written : forall S posrs ftab ifuel, spec_ok
 Proof. exact text_element_tokens_are_written. Qed.
 Print Assumptions C02_text_element_tokens_are_written.
 
+(* through the text: parse an element, write the value with the generic writer, tokenize the written text - the tokens of the
+   written text stand, one by one and in order, for the tokens that were read (additionally: the conditions of the C01 writer
+   theorem, confb and well-formed token texts) *)
+Theorem C02_written_text_has_the_input_tokens : forall S posrs ftab names ifuel, spec_ok S = true ->
+  forall f td c off s v s' nxt indent,
+    c_fileid c = O -> Inv s -> first_ok s -> ps_ftab s = ftab ->
+    lookup_ty S (t_name td) = Some td -> t_special td = None ->
+    parse_ty f S ifuel td c off s = (ROk v, s') -> ps_log s' = ps_log s -> good S posrs f td v ->
+    confb S posrs ftab f td v nxt = true -> Forall token_text (wtoks S posrs ftab f v) ->
+    exists ts toks',
+      adv ts s s' /\
+      tokenize_core 0 (write_node S posrs ftab names f v indent) = TOk toks' /\
+      traced ftab ts (map shape_of toks' ++ closing (is_blockb td) (c_element c)).
+Proof. exact element_tokens_preserved. Qed.
+Print Assumptions C02_written_text_has_the_input_tokens.
+
 (* the writer lists the children of a block that the parser built in the order in which they were read *)
 Theorem C02_children_are_written_in_file_order : forall S posrs titems K' P lo, length K' = length titems ->
   (forall i, nth i K' [] = kids_at i P) ->
@@ -77,7 +96,25 @@ Theorem C02_children_are_written_in_file_order : forall S posrs titems K' P lo, 
 Proof. exact ordered_kids_parse_order. Qed.
 Print Assumptions C02_children_are_written_in_file_order.
 
+(* a whole document: parse_file (version lines, root element, check for trailing tokens) on the token list of a file.  If it
+   succeeds without a single warning, every token was consumed and the token list is, token by token, what the writer prints
+   for the model *)
+Theorem C02_document_tokens_are_written : forall S posrs ftab, spec_ok S = true ->
+  (forall td, lookup_ty S "Asap2Version" = Some td -> fields_only S td = true) ->
+  forall toks td v s',
+    forallb tok_okb toks = true -> toks <> [] -> StronglySorted (fun a b => (tk_line a <= tk_line b)%N) toks ->
+    lookup_ty S "A2lFile" = Some td -> t_special td = None ->
+    parse_file S (init_state toks false 1 ftab) = (ROk v, s') -> ps_log s' = [] ->
+    good S posrs (Datatypes.S (Datatypes.S (length toks))) td v ->
+    ps_after s' = [] /\
+    traced ftab toks (wtoks S posrs ftab (Datatypes.S (Datatypes.S (length toks))) v ++ closing (is_blockb td) (bytes_of "A2L_FILE")).
+Proof. exact document_tokens_are_written. Qed.
+Print Assumptions C02_document_tokens_are_written.
+
 (* the shipped grammar meets the grammar condition (re-checked whenever the regenerated term changes) *)
+Lemma C02_shipped_version_element_is_plain : forall td, lookup_ty spec_shipped "Asap2Version" = Some td -> fields_only spec_shipped td = true.
+Proof. intros td H. vm_compute in H. injection H as <-. vm_compute. reflexivity. Qed.
+
 Lemma C02_shipped_grammar_is_covered : spec_ok spec_shipped = true.
 Proof. vm_compute. reflexivity. Qed.
 
@@ -98,4 +135,23 @@ Definition demo_check : option (bool * bool * bool * bool * nat) :=
   | _, _ => None
   end.
 Example C02_premises_are_met : demo_check = Some (true, true, true, true, O).
+Proof. vm_compute. reflexivity. Qed.
+
+(* ... and a whole document *)
+Definition demo_doc : string :=
+  "ASAP2_VERSION 1 71 /begin PROJECT p """" /begin HEADER ""h"" VERSION ""1"" /end HEADER /begin MODULE m """" /begin MEASUREMENT " ++ demo_body ++
+  " /begin COMPU_METHOD cm_speed """" IDENTICAL ""%4.2"" ""km/h"" /end COMPU_METHOD /end MODULE /end PROJECT".
+Definition demo_doc_check : option (bool * bool * bool * bool) :=
+  match tokenize_core 0 (list_ascii_of_string demo_doc), lookup_ty spec_shipped "A2lFile" with
+  | TOk toks, Some td =>
+      match parse_file spec_shipped (init_state toks false 1 demo_ftab) with
+      | (ROk v, s') =>
+          Some (forallb tok_okb toks, match ps_log s' with [] => true | _ => false end,
+                match t_special td with None => true | Some _ => false end,
+                goodb spec_shipped posr_shipped (S (S (length toks))) td v)
+      | _ => None
+      end
+  | _, _ => None
+  end.
+Example C02_document_premises_are_met : demo_doc_check = Some (true, true, true, true).
 Proof. vm_compute. reflexivity. Qed.
